@@ -1002,3 +1002,54 @@ def _mode_sites(repo):
             "def undefModeMentions : List (String × String × String × Nat) := [\n  "
             + ",\n  ".join(f"({lean_str(f)}, {lean_str(fn)}, {lean_str(c)}, {n})" for f, fn, c, n in rows) + "]")
     return {"tests": [list(t) for t in tests], "mentions": [list(r) for r in rows]}, lean
+
+
+# ---------------------------------------------------------------------------- the mode-blind twins
+# `UndefinedBehavior::{try_iter, is_true, handle_undefined}` have twins on `Value` that take the same decision
+# WITHOUT the mode (`Value::try_iter` iterates an undefined as empty, `Value::is_true` says false, `get_attr` /
+# `get_item(_opt)` / `get_attr_fast` hand back an undefined, `is_undefined` guards a hand-rolled decision).  A site of
+# the language that asks the twin instead of the helper is outside the documented matrix (seeded C12-6: the
+# recursion arm of push_loop; C12-7: look-ups folded by as_const).  Every call of a twin in the two crates is listed
+# here, per (file, fn, twin); `MJ/Proofs/UndefTwins.lean` holds the justification of each row and the theorem
+# `blind_twin_sites_justified` is re-checked against this table on every run.
+TWINS = ["try_iter", "is_true", "get_attr", "get_item", "get_item_opt", "get_attr_fast", "get_item_by_index", "is_undefined"]
+
+
+def strip_test_mods(src):
+    """drop `#[cfg(test)] mod … { … }` (unit tests inside src)"""
+    out, i = [], 0
+    for m in re.finditer(r"#\[cfg\(test\)\]\s*mod\s+\w+\s*\{", src):
+        if m.start() < i:
+            continue
+        out.append(src[i:m.start()])
+        blk = block_after(src, m.end() - 1)
+        i = m.end() - 1 + len(blk)
+    out.append(src[i:])
+    return "".join(out)
+
+
+@item("C12_BLIND_TWINS")
+def _blind_twins(repo):
+    """(file, enclosing fn, twin, number of calls) of every call `.twin(` in minijinja/src and minijinja-contrib/src that
+    does not go through the mode (`undefined_behavior().twin(` / `undefined_behavior.twin(` are the helpers themselves)"""
+    import collections
+    cnt = collections.OrderedDict()
+    n_helper = 0
+    for rel in rs_files(repo):
+        src = strip_test_mods(strip_comments(read(repo, rel)))
+        for m in re.finditer(r"\.\s*(%s)\s*\(" % "|".join(TWINS), src):
+            head = src[max(0, m.start() - 60):m.start()]
+            if re.search(r"undefined_behavior\s*(\(\s*\))?\s*$", head):
+                n_helper += 1
+                continue
+            # the definition of the twin itself (`fn try_iter(`) is not a call: the regex needs a leading dot
+            k = (rel, enclosing_fn(src, m.start()), m.group(1))
+            cnt[k] = cnt.get(k, 0) + 1
+    if n_helper == 0 or not cnt:
+        raise KeyError("no twin / helper calls found")
+    rows = [(f, fn, tw, n) for (f, fn, tw), n in cnt.items()]
+    lean = ("/-- every call of a mode-blind twin (`Value::try_iter`, `is_true`, `get_attr`, `get_item(_opt)`, `get_attr_fast`,\n"
+            "    `get_item_by_index`, `is_undefined`) that does not go through the mode: (file, fn, twin, count) -/\n"
+            "def undefBlindTwins : List (String × String × String × Nat) := [\n  "
+            + ",\n  ".join(f"({lean_str(f)}, {lean_str(fn)}, {lean_str(tw)}, {n})" for f, fn, tw, n in rows) + "]")
+    return [list(r) for r in rows], lean
